@@ -13525,13 +13525,21 @@ class TensorDictBase(MutableMapping):
             return result
 
         if self.is_consolidated() and dtype is None:
-            return self._to_consolidated(
-                device=device,
-                pin_memory=non_blocking_pin,
-                num_threads=num_threads,
-                non_blocking=non_blocking,
-                inplace=inplace,
-            )
+            from tensordict._reductions import _consolidated_is_current
+
+            consolidated = self._consolidated
+            # the fast path casts the storage and views the entries over it: it is only
+            # valid if the storage still holds the content of the tensordict
+            if consolidated.get("metadata") is None or _consolidated_is_current(
+                self, consolidated
+            ):
+                return self._to_consolidated(
+                    device=device,
+                    pin_memory=non_blocking_pin,
+                    num_threads=num_threads,
+                    non_blocking=non_blocking,
+                    inplace=inplace,
+                )
 
         if non_blocking is None:
             sub_non_blocking = True
